@@ -1,7 +1,7 @@
 """C09 — projected coordinates agree with proj4js and with independent reference formulas.
 
 pregen (tie T1): harness/cmd/c09/extract (go/ast + go/types, source text only) regenerates
-lean/GeomV/C09/Gen/{GoCommon,Tables}.lean from the CURRENT proj/common.go, the four table files and
+lean/GeomV/C09/Gen/{GoCommon,GoProj,Tables}.lean from the CURRENT proj/common.go, the closures of the projection files, datum.go, the four table files and
 the vendored proj4js constants, so the theorems are re-checked against what the code says now.
 If `node` is on PATH the vendored JavaScript itself is run on a sample to validate the Lean
 transliteration `Js.lean` (recorded in the evidence; the check does not depend on node).
@@ -150,7 +150,7 @@ CFG = {
     "trusted_base": [
         "Lean 4.33.0 kernel; axioms of every theorem printed by #print axioms must be within {propext, Classical.choice, Quot.sound}",
         "T1 extractor harness/cmd/c09/extract (go/ast + go/types constant folding; regex over the proj4js object literals): "
-        "regenerates Gen/GoCommon.lean and Gen/Tables.lean from the current sources on every run",
+        "regenerates Gen/GoCommon.lean, Gen/GoProj.lean (closures of merc/lcc/aea/eqdc/tmerc/krovak, aeaPhi1z, datum.go methods) and Gen/Tables.lean from the current sources on every run",
         "hand models Model.lean (Go port) and Js.lean (proj4js) are tied by the correspondence run: Go vs Model to 1e-6 m, "
         "Go vs Js to 0.1 mm, Go vs Spec.Ref to 5 mm on every generated case; Js.lean is additionally cross-checked against the "
         "vendored JavaScript run by node when node is present",
